@@ -174,6 +174,7 @@ class LimitFn:
             for ranks in (tol_cases() if self.tol else plain_cases()):
                 n += 1
                 case = OrderCase([(terms, ranks)])
+                case.minmax_by_selection = True
                 desc = describe(ranks)
                 ret = self.judge(ranks, case, lambda nm, r=ranks: r[nm], desc)
                 if n <= 2:
@@ -186,6 +187,7 @@ class LimitFn:
             for w in axis_witnesses(self.tol, literal_constants_closure(self.prog, self.fn)):
                 assign = {'value': w['v'], 'lower': w['l'], 'upper': w['u'], 'tol': w['t']}
                 case = WitnessCase(assign)
+                case.minmax_by_selection = True
                 ranks = ranks_of(terms, assign)
                 wdesc = 'value=%s lower=%s upper=%s tol=%s' % (w['v'], w['l'], w['u'], w['t'])
                 try:
@@ -269,6 +271,7 @@ def run(ck, prog, tier):
                     continue  # the tolerance is shared: zero on both axes or positive on both
                 n3 += 1
                 case = OrderCase([(tx, rx), (ty, ry)])
+                case.minmax_by_selection = True
                 judge_pib(rx, ry, case, 'x: %s | y: %s' % (describe(rx), describe(ry)))
     except Undecided as und:
         before = len(ck.violations)
@@ -281,6 +284,7 @@ def run(ck, prog, tier):
                           'y': wy['v'], 'y_min': wy['l'] + 1, 'y_max': wy['u'] + 1}
                 assign['y'] = wy['v'] + 1
                 case = WitnessCase(assign)
+                case.minmax_by_selection = True
                 rx, ry = ranks_of(tx, assign), ranks_of(ty, assign)
                 wdesc = ' '.join('%s=%s' % kv for kv in sorted(assign.items()))
                 try:
